@@ -589,6 +589,7 @@ func main() {
 	selfcheck := flag.Bool("selfcheck", false, "determinism self-check")
 	runs := flag.Int("runs", 0, "override number of runs")
 	oneIdx := flag.Int("idx", -1, "debug: execute a single run index and print its trace")
+	dbgRange := flag.String("range", "", "debug: lo:hi:stride — execute that index range in ONE worker process and print violations")
 	warm := flag.Bool("warm", false, "build the E1 and E2 workers once to warm the toolchain caches, then exit")
 	flag.Parse()
 	if wd, err := os.Getwd(); err == nil {
@@ -621,6 +622,27 @@ func main() {
 	}
 	if *selfcheck {
 		os.Exit(doSelfcheck(*prop, cfg, seed))
+	}
+	if *dbgRange != "" {
+		var lo, hi, st int
+		fmt.Sscanf(*dbgRange, "%d:%d:%d", &lo, &hi, &st)
+		b := doBuild(cfg, *prop)
+		defer b.cleanup()
+		res, err := b.runWorker(Spec{Property: *prop, Seed: seed, Tier: *tier, Lo: lo, Hi: hi, Stride: st, KeepTape: false}, 0, 60*time.Minute)
+		if err != nil {
+			fmt.Println("worker error:", err)
+		}
+		for _, r := range res {
+			for _, v := range r.Viols {
+				fmt.Printf("run %d VIOL %s/%s: %s\n", r.Idx, v.Rule, v.Sig, oneLine(v.Msg))
+			}
+			if r.Harness != "" {
+				fmt.Printf("run %d HARNESS %s\n", r.Idx, r.Harness)
+			}
+		}
+		fmt.Printf("%d runs\n", len(res))
+		b.cleanup()
+		os.Exit(0)
 	}
 	if *oneIdx >= 0 {
 		b := doBuild(cfg, *prop)
